@@ -33,11 +33,17 @@ pub fn post_request_v(kind: Kind, explicit_te: bool, ver10: bool, variant: usize
     if variant % 5 == 2 {
         b = b.header("connection", "close").header("x-extra", "1");
     }
+    if variant % 3 == 0 {
+        // the caller supplies Host itself
+        b = b.header("host", "virtual.test");
+    }
     if ver10 {
         b = b.version(ureq_proto::http::Version::HTTP_10);
     }
     match kind {
-        Kind::Sized(n) => b = b.header("content-length", n.to_string()),
+        // variant % 7 == 3 (flow API): the length is declared in the Prepare state instead (Flow::header)
+        Kind::Sized(n) if variant % 7 != 3 => b = b.header("content-length", n.to_string()),
+        Kind::Sized(_) => {}
         Kind::Chunked => {
             if explicit_te {
                 b = b.header("transfer-encoding", "chunked")
@@ -57,11 +63,15 @@ impl Wut {
     pub fn new_vv(api: &str, kind: Kind, explicit_te: bool, ver10: bool, variant: usize) -> Wut {
         // the single-call constructor with_body takes body methods only
         let variant = if api == "flow" { variant } else { variant - variant % 6 + (variant % 6) % 3 };
+        let variant = if api != "flow" && variant % 7 == 3 { variant + 6 } else { variant };
         let req = post_request_v(kind, explicit_te, ver10, variant);
         let despite = matches!(req.method().as_str(), "GET" | "DELETE");
         let mut buf = vec![0u8; 2048];
         if api == "flow" {
             let mut f0 = Flow::new(req).unwrap();
+            if let (Kind::Sized(n), 3) = (kind, variant % 7) {
+                f0.header("content-length", n.to_string()).unwrap();
+            }
             if despite {
                 f0.send_body_despite_method();
             }
